@@ -286,6 +286,13 @@ def geo_edit_sets(rng, ev: Eval, full_vars: int) -> list:
         one = [{'op': 'g_value', 'var': name, 'flat': rng.randrange(size)}]
         E.append(('value', name, one))
         if not full:
+            # the other geometry variables get one more edit of a random kind
+            how = rng.choice(['append1', 'prepend1', 'reverse', 'flatten', 'split'])
+            E.append(rng.choice([
+                ('shape:' + how, name, [{'op': 'g_shape', 'var': name, 'how': how}]),
+                ('rename', name, [{'op': 'g_rename', 'var': name, 'to': name + '_r'}]),
+                ('attr_add', name, [{'op': 'g_attr_add', 'var': name, 'key': 'note', 'value': 'added'}]),
+            ]))
             continue
         if vals.dtype.kind == 'f' and not np.isnan(vals).all():
             E.append(('value', name, [{'op': 'g_value', 'var': name, 'flat': rng.randrange(size), 'how': 'nan'}]))
@@ -386,6 +393,83 @@ def direct_items(ctx, rng) -> list:
         items.append((line, out, {'direct': 'attrs', 'repr': repr(d)[:200], 'op': line}))
         ctx.count('direct:attrs')
         ctx.nontrivial(('attrs', repr(d)[:80]))
+    return items
+
+
+# --------------------------------------------------------------------------
+# the F10 quirk model of marshal (str -> str dictionaries of short ASCII strings)
+
+def parse_marshal_strdict(blob: bytes):
+    """(dict shared?, [(text, interned, shared, ident) pairs]) read off a real marshal blob, or None
+    when the blob contains anything but short ASCII strings"""
+    if not blob or blob[0] not in (0x7b, 0xfb):
+        return None
+    shared = blob[0] == 0xfb
+    table = [0] if shared else []
+    objs = []
+    by_ident = {}
+    i, next_id = 1, 1
+    while True:
+        if i >= len(blob):
+            return None
+        t = blob[i]
+        i += 1
+        if t == 0x30:
+            break
+        if t in (0x7a, 0xfa, 0xda):
+            n = blob[i]
+            text = blob[i + 1:i + 1 + n]
+            i += 1 + n
+            if any(c > 127 for c in text):
+                return None
+            o = (text.decode('ascii'), t == 0xda, t in (0xfa, 0xda), next_id)
+            by_ident[next_id] = o
+            if t & 0x80:
+                table.append(next_id)
+            next_id += 1
+            objs.append(o)
+        elif t == 0x72:
+            idx = int.from_bytes(blob[i:i + 4], 'little')
+            i += 4
+            if idx >= len(table) or table[idx] == 0:
+                return None
+            objs.append(by_ident[table[idx]])
+        else:
+            return None
+    if i != len(blob) or len(objs) % 2:
+        return None
+    return shared, list(zip(objs[0::2], objs[1::2]))
+
+
+def marshal_items(ctx, rng, extra_dicts: list) -> list:
+    lit = {'standard_name': 'latitude', 'units': 'degrees_north', 'axis': 'Y'}
+    fresh = {K.fresh_value(k): K.fresh_value(v) for k, v in lit.items()}
+    shared_value = K.fresh_value('shared text')
+    twice = {K.fresh_value('a'): shared_value, K.fresh_value('bb'): shared_value, 'c': 'latitude', 'latitude': 'c'}
+    dicts = [lit, fresh, twice, {}, {'k': 'v'}, {K.fresh_value('long'): K.fresh_value('x' * 255)}] + extra_dicts
+    for _ in range(ctx.budget(10, 60)):
+        d = {}
+        for _ in range(rng.randint(0, 5)):
+            k = rng.choice(['units', 'standard_name', 'axis', 'bounds', 'note', 'k' + str(rng.randint(0, 9))])
+            v = rng.choice(['m', 'latitude', 'degrees_east', 'X', 'v' + str(rng.randint(0, 9))])
+            d[k if rng.random() < 0.5 else K.fresh_value(k)] = v if rng.random() < 0.5 else K.fresh_value(v)
+        dicts.append(d)
+    items = []
+    for d in dicts:
+        blob = marshal.dumps(d, 4)
+        parsed = parse_marshal_strdict(blob)
+        if parsed is None:
+            ctx.count('marshal-model:unsupported')
+            continue
+        shared, pairs = parsed
+        enc = ','.join('~'.join(f'{hx(t)}/{int(i)}/{int(s)}/{ident}' for t, i, s, ident in pair) for pair in pairs) or '-'
+        line = f'marshal {int(shared)} {enc}'
+        items.append((line, hb(blob), {'direct': 'marshal', 'repr': repr(d)[:200], 'op': line}))
+        ctx.count('marshal-model')
+        ctx.nontrivial(('marshal', hb(blob)))
+        # the content is what the texts say
+        if [(a[0], b[0]) for a, b in pairs] != list(d.items()):
+            raise AssertionError('harness: marshal blob parsed to other texts than the dictionary holds')
     return items
 
 
@@ -514,12 +598,32 @@ def run(ctx) -> None:
     # ---- the three helpers, called directly -------------------------------------------------
     items += direct_items(ctx, rng)
 
+    # ---- F10 probes on datasets that are NOT stabilised -------------------------------------
+    bases = base_cases(ctx, rng)
+    probe_bases = [c for c in bases[:ctx.budget(5, 20)]]
+    raw_attr_dicts = []
+    for bcase in probe_bases:
+        for probe in ['fresh_attrs', 'netcdf', 'pickle', 'copy_alive']:
+            res = run_probe(bcase, probe)
+            raw_attr_dicts += res.pop('attr_dicts', [])
+            ctx.count(f'probe:{probe}')
+            ctx.evaluated()
+            if res.get('skip'):
+                continue
+            ctx.nontrivial(('probe', probe, json.dumps(bcase['recipe'], sort_keys=True)[:200]))
+            if res['same_geometry'] and res['key_a'] != res['key_b']:
+                ctx.oracle_fail(SIG_F10 if res['flags'] else 'cache-key-equal-geometry-different-key',
+                                {'probe': probe, 'case': res['case']},
+                                f"{probe}: names, dtypes, shapes, values and attributes are equal, keys differ "
+                                f"{res['key_a'][:16]}… != {res['key_b'][:16]}… (attribute bytes differ for {res['flags']})")
+
+    items += marshal_items(ctx, rng, raw_attr_dicts)
+
     # ---- datasets × edits -------------------------------------------------------------------
     child_cases: list = []
     child_expect: list = []
     reorder_changes = [0, 0]
     covered: dict = {}
-    bases = base_cases(ctx, rng)
     for bi, bcase in enumerate(bases):
         b = Eval(bcase)
         conv = b.state['conv']
@@ -635,22 +739,6 @@ def run(ctx) -> None:
             e = Eval(case)
             items.append((e.stream_line(), e.stream_out(), {'case': case, 'op': 'stream'}))
 
-    # ---- F10 probes on datasets that are NOT stabilised -------------------------------------
-    probe_bases = [c for c in bases[:ctx.budget(5, 20)]]
-    for bcase in probe_bases:
-        for probe in ['fresh_attrs', 'netcdf', 'pickle', 'copy_alive']:
-            res = run_probe(bcase, probe)
-            ctx.count(f'probe:{probe}')
-            ctx.evaluated()
-            if res.get('skip'):
-                continue
-            ctx.nontrivial(('probe', probe, json.dumps(bcase['recipe'], sort_keys=True)[:200]))
-            if res['same_geometry'] and res['key_a'] != res['key_b']:
-                ctx.oracle_fail(SIG_F10 if res['flags'] else 'cache-key-equal-geometry-different-key',
-                                {'probe': probe, 'case': res['case']},
-                                f"{probe}: names, dtypes, shapes, values and attributes are equal, keys differ "
-                                f"{res['key_a'][:16]}… != {res['key_b'][:16]}… (attribute bytes differ for {res['flags']})")
-
     # ---- malformed / unusual configurations --------------------------------------------------
     for tagm, mc in malformed_cases(rng, ctx.tier):
         case = {'recipe': mc['recipe'], 'netcdf': False, 'enrich': False, 'stabilise': True, 'edits': mc['edits'],
@@ -720,7 +808,9 @@ def run_probe(bcase: dict, probe: str) -> dict:
         return {'skip': True}
     ga, gb = geometry_content(a.ds, a.state), geometry_content(b.ds, b.state)
     return {'case': case_b, 'same_geometry': ga == gb, 'key_a': a.key, 'key_b': b.key,
-            'flags': flags_only_difference(a, b)}
+            'flags': flags_only_difference(a, b),
+            'attr_dicts': [{k: v for k, v in e.ds.variables[n].attrs.items() if isinstance(v, str)}
+                           for e in (a, b) for n in e.state['expected'][:2]]}
 
 
 # --------------------------------------------------------------------------
